@@ -70,6 +70,9 @@ mod imp {
         pub envelope: Bytes,
         pub code: Bytes,
         pub program: String,
+        /// an earlier transaction (kind, enveloped bytes) executed on the same Evm instance, not committed
+        #[serde(default)]
+        pub prev: Option<(Kind, Bytes)>,
     }
     struct L1Params {
         base_fee: u64,
@@ -144,11 +147,9 @@ mod imp {
         }
         t
     }
-    fn exec33(c: &Case33) -> (TxCase, Outcome) {
-        let t = tx_case(c);
-        let spec = t.spec();
+    fn env33(t: &TxCase, kind: Kind, envelope: &Bytes) -> Box<revm::primitives::Env> {
         let mut env = t.env();
-        match c.kind {
+        match kind {
             Kind::DepositCreate | Kind::DepositLowGas => {
                 env.tx.optimism.source_hash = Some(B256::with_last_byte(3));
                 env.tx.optimism.mint = Some(5);
@@ -165,8 +166,25 @@ mod imp {
             }
             _ => {}
         }
-        env.tx.optimism.enveloped_tx = Some(c.envelope.clone());
-        let mut evm = Evm::builder().with_db(to_cachedb(&t.world)).with_env(env).with_handler(Handler::optimism_with_spec(spec, true)).build();
+        env.tx.optimism.enveloped_tx = Some(envelope.clone());
+        env
+    }
+    fn exec33(c: &Case33) -> (TxCase, Outcome) {
+        let t = tx_case(c);
+        let spec = t.spec();
+        let env = env33(&t, c.kind, &c.envelope);
+        let first_env = match &c.prev {
+            Some((k, e)) => {
+                let pc = Case33 { kind: *k, envelope: e.clone(), prev: None, ..c.clone() };
+                env33(&tx_case(&pc), *k, e)
+            }
+            None => env.clone(),
+        };
+        let mut evm = Evm::builder().with_db(to_cachedb(&t.world)).with_env(first_env).with_handler(Handler::optimism_with_spec(spec, true)).build();
+        if c.prev.is_some() {
+            let _ = catch(|| evm.transact());
+            evm.context.evm.inner.env = env;
+        }
         let r = catch(|| evm.transact());
         let o = match r {
             Ok(r) => Outcome::from_result(r),
@@ -208,6 +226,19 @@ mod imp {
         let (t, o) = exec33(c);
         let spec = t.spec();
         let mut v = vec![];
+        if c.prev.is_some() {
+            // nothing was committed: the same transaction on a fresh instance must give the same result
+            let (_, f) = exec33(&Case33 { prev: None, ..c.clone() });
+            let bals = |o: &Outcome| {
+                let mut b: Vec<(Address, U256, u64)> = o.state.iter().filter(|(_, a)| a.is_touched()).map(|(a, acc)| (*a, acc.info.balance, acc.info.nonce)).collect();
+                b.sort();
+                b
+            };
+            if (&o.class, &o.reason, o.gas_used, bals(&o)) != (&f.class, &f.reason, f.gas_used, bals(&f)) {
+                v.push(("earlier-transaction-changes-result".into(), format!("after {:?} on the same instance: {:?} {} gas {} balances {:?}; on a fresh instance: {:?} {} gas {} balances {:?}", c.prev.as_ref().map(|p| p.0), o.class, o.reason, o.gas_used, bals(&o), f.class, f.reason, f.gas_used, bals(&f))));
+                return (v, format!("{:?}", o.class));
+            }
+        }
         let is_deposit = matches!(c.kind, Kind::Deposit { .. } | Kind::SystemDeposit | Kind::DepositCreate | Kind::DepositLowGas);
         let sig = format!("{:?}/{}", o.class, o.reason.split('(').next().unwrap_or(""));
         if o.class == Class::Fatal {
@@ -333,6 +364,8 @@ mod imp {
         ];
         let alpha: Vec<Mac> = crate::props::txinv::fee_safe_alphabet();
         let depth = ctx.tier.pick(1, 2);
+        // earlier transactions on the same instance (programs of depth <= 1 only)
+        let prevs: Vec<Option<(Kind, Bytes)>> = vec![None, Some((Kind::Legacy, envelopes[2].clone())), Some((Kind::Legacy, envelopes[1].clone())), Some((Kind::Deposit { mint: 5, value: 0 }, envelopes[3].clone()))];
         let mut jobs = vec![];
         for s in specs {
             let a: Vec<Mac> = alpha.iter().filter(|m| mainnet_equiv(s).is_enabled_in(m.since())).cloned().collect();
@@ -357,19 +390,24 @@ mod imp {
                                 if seq.len() > 1 && ei != 2 {
                                     continue;
                                 }
-                                let c = Case33 { spec: spec_name(*s), kind, l1, envelope: env.clone(), code: Bytes::from(code.clone()), program: format!("{seq:?}") };
+                              for prev in prevs.iter() {
+                                if prev.is_some() && seq.len() > 1 {
+                                    continue;
+                                }
+                                let c = Case33 { spec: spec_name(*s), kind, l1, envelope: env.clone(), code: Bytes::from(code.clone()), program: format!("{seq:?}"), prev: prev.clone() };
                                 let (v, sig) = check(&c);
                                 a.evaluations += 1;
                                 a.states += 1;
                                 a.transitions += 1;
-                                a.distinct(&(s, kind, l1, ei, &sig));
+                                a.distinct(&(s, kind, l1, ei, prev.as_ref().map(|p| p.1.len()), &sig));
                                 a.outcome(&sig);
                                 if a.samples.is_empty() && !seq.is_empty() && l1 == L1::Typical {
                                     a.sample(|| json!({"case": c, "result": sig}));
                                 }
                                 for (k, m) in v {
-                                    a.violation(Violation { key: k, msg: format!("{} {kind:?} L1={l1:?} envelope {} bytes program {seq:?}: {m}", c.spec, env.len()), case: json!({"c": c}) });
+                                    a.violation(Violation { key: k, msg: format!("{} {kind:?} L1={l1:?} envelope {} bytes program {seq:?} earlier transaction {:?}: {m}", c.spec, env.len(), prev.as_ref().map(|p| (p.0, p.1.len()))), case: json!({"c": c}) });
                                 }
+                              }
                             }
                         }
                     }
@@ -379,7 +417,7 @@ mod imp {
             .collect();
         let acc = merge_all(accs);
         let meta = Meta {
-            rule: format!("every macro program of depth <= {depth} over the fee-safe alphabet x 12 transaction kinds (legacy, with value, EIP-1559 uncapped / capped, tight gas, 4 deposits with and without mint and value, system deposit, a deposit that creates a contract from the program, a deposit below the intrinsic gas) x L1 block parameters {{zero, typical, huge}} x 4 enveloped-transaction byte strings (empty, 4 bytes, 120 mixed bytes, deposit-typed) on BEDROCK..ISTHMUS through the Optimism handler; distinct = distinct (spec, kind, L1 parameters, envelope, outcome)"),
+            rule: format!("every macro program of depth <= {depth} over the fee-safe alphabet x 12 transaction kinds (legacy, with value, EIP-1559 uncapped / capped, tight gas, 4 deposits with and without mint and value, system deposit, a deposit that creates a contract from the program, a deposit below the intrinsic gas) x L1 block parameters {{zero, typical, huge}} x 4 enveloped-transaction byte strings (empty, 4 bytes, 120 mixed bytes, deposit-typed) on BEDROCK..ISTHMUS through the Optimism handler; programs of depth <= 1 also after each of 3 earlier, uncommitted transactions on the same Evm instance (two user transactions with other enveloped bytes, a deposit), where the result must also equal that of a fresh instance; distinct = distinct (spec, kind, L1 parameters, envelope, outcome)"),
             assumptions: vec![
                 "programs never pay the sender, the beneficiary or a vault, so balance deltas of those accounts are fee flows only".into(),
                 "the L1 cost is compared with an independent definition for Bedrock / Regolith / Ecotone; from Fjord (FastLZ size estimate) only conservation and the other components are decided".into(),
